@@ -575,8 +575,18 @@ fn compact(s: &BTreeSet<u64>) -> Vec<(u64, u64)> {
 
 /// C21 on the store itself: every consecutive stored pair verifies adjacent; hash index agrees.
 async fn c21_scan<S: Store>(ctx: &RunCtx, s: &S, heights: &[u64], backend: &'static str) {
+    let stored = s.get_stored_header_ranges().await.ok();
     for &h in heights {
-        let Ok(a) = s.get_by_height(h).await else { continue };
+        let Ok(a) = s.get_by_height(h).await else {
+            // a height the store reports as stored has a header (else the segment it belongs to
+            // is not a hash-linked run of headers at all)
+            if stored.as_ref().is_some_and(|r| r.contains(h)) {
+                ctx.oracle("C21.adjacent");
+                ctx.violation("C21", "adjacent", &format!("{backend}:stored_height_without_header"),
+                    format!("height {h} is inside the stored ranges {} but get_by_height({h}) fails", stored.as_ref().unwrap()));
+            }
+            continue;
+        };
         ctx.oracle("C21.hash_index");
         match s.get_by_hash(&a.hash()).await {
             Ok(b) if b == a => {}
